@@ -939,6 +939,9 @@ def tla_token(tk):
         v = -tk - 3000000000
         f, ij = v % 20, v // 20
         return 2000000 + 20 * (100 * (ij // 10000000) + (ij % 10000000)) + f
+    if tk < 0:
+        # Num(i, f) of a node beyond the 90th (conv_real.num keeps those apart from character codes)
+        return 100 + 10 * ((-tk) // 10) + (-tk) % 10
     return tk
 
 
@@ -1059,7 +1062,7 @@ def direction_tag(ck, seen):
     if n != res.emitted or n == 0:
         raise MachineryError("emitted %d terminal states but read %d" % (res.emitted, n))
     rng = random.Random(ck.seed)
-    limit = 800 if ck.tier == "quick" else 20000
+    limit = 500 if ck.tier == "quick" else 20000
     progs.sort(key=lambda pr: json.dumps(pr, sort_keys=True))          # TLC's emission order depends on its workers
     if len(progs) > limit:
         progs = rng.sample(progs, limit)
